@@ -37,7 +37,7 @@ m("C04", "replace-content-loses-line", "src/nodes/token.rs",
 m("C04", "newline-not-counted", "src/generator/token_based.rs",
   "    fn uncomment(&mut self) {\n        self.output.push('\\n');\n        self.current_line += 1;",
   "    fn uncomment(&mut self) {\n        self.output.push('\\n');",
-  "C04.count|output|push-newline-counted@uncomment")
+  "C04.count|counter-exact")
 m("C12", "replace-tokens-forgets-field", "src/nodes/function_call.rs",
   "super::impl_token_fns!(iter = [colon, type_instantiation_tokens]);", "super::impl_token_fns!(iter = [type_instantiation_tokens]);",
   "C12.tokens-cover|replace_referenced_tokens|nodes::function_call::FunctionCallTokens.colon")
